@@ -154,20 +154,43 @@ def vbool (b : Bool) : Res := .ok (.bool b)
 def floatToInt? (f : Float) : Option Int64 :=
   if f.isNaN || f.isInf || f ≥ 9.2e18 || f ≤ -9.2e18 then none else some f.toInt64
 
-/-- `math.Pow` where its result is certainly exact: integer base and non-negative integer exponent
-    with |result| < 2^53.  Elsewhere Go's own algorithm and the C library may differ in the last
-    bit, so the executable model declines to answer (`unsupported`). -/
-def exactPow (l r : Float) : Option Float :=
-  if l.isNaN || r.isNaN || l.isInf || r.isInf then none
-  else if l != l.floor || r != r.floor || r < 0 || r > 64 || l.abs ≥ 9007199254740992 then none
-  else
-    let b := l.abs.toUInt64.toNat
-    let e := r.toUInt64.toNat
-    let n := b ^ e
-    if n ≥ 9007199254740992 then none
+/-- the successive-squaring loop of Go's `math.pow` for the integral part `i` of the exponent: the answer is
+    kept as `a1 * 2**ae`, the running square as `x1 * 2**xe` with `x1` renormalised into [1/2, 1) -/
+def powLoop : Nat → Nat → Float → Float → Int → Int → Float × Int
+  | 0, _, a1, _, ae, _ => (a1, ae)
+  | fuel + 1, i, a1, x1, ae, xe =>
+    if i == 0 then (a1, ae)
+    else if xe < -4096 || 4096 < xe then (a1, ae + xe)   -- certain over/underflow: Ldexp will produce Inf / 0
     else
-      let neg := l < 0 && e % 2 == 1
-      some (if neg then -(Float.ofNat n) else Float.ofNat n)
+      let a1' := if i % 2 == 1 then a1 * x1 else a1
+      let ae' := if i % 2 == 1 then ae + xe else ae
+      let x2 := x1 * x1
+      let xe2 := xe * 2
+      if x2 < 0.5 then powLoop fuel (i / 2) a1' (x2 + x2) ae' (xe2 - 1)
+      else powLoop fuel (i / 2) a1' x2 ae' xe2
+
+/-- `math.Pow(x, y)` as Go computes it (package math, pure Go on this platform), for the arguments where only
+    exactly specified IEEE operations are involved: finite `x`, and `y` an integer (Frexp, multiplication,
+    division, Ldexp) or ±0.5 (Sqrt).  For other fractional exponents Go goes through Exp and Log, whose
+    last bit is not pinned down by a specification: the executable model declines (`none`). -/
+def goPow (x y : Float) : Option Float :=
+  if y == 0 || x == 1 then some 1
+  else if y == 1 then some x
+  else if x.isNaN || y.isNaN || x.isInf || y.isInf then none
+  else if x == 0 then
+    let oddY := y.abs < 9007199254740992 && y == y.floor && y.abs.toUInt64 % 2 == 1
+    if y < 0 then none            -- ±Inf: what becomes of it (conversion to an integer) is platform-defined
+    else some (if (1 / x) < 0 && oddY then x else 0)
+  else if y == 0.5 then some x.sqrt
+  else if y == -0.5 then some (1 / x.sqrt)
+  else if y != y.floor then none
+  else if y.abs ≥ 9007199254740992 then none
+  else
+    let i := y.abs.toUInt64.toNat
+    let (x1, xe) := x.frExp
+    let (a1, ae) := powLoop 64 i 1.0 x1 0 xe
+    let (a1, ae) := if y < 0 then (1 / a1, -ae) else (a1, ae)
+    some (a1.scaleB ae)
 
 def intOp (op : Op) (l r : Int64) : Res :=
   match op with
@@ -177,7 +200,7 @@ def intOp (op : Op) (l r : Int64) : Res :=
   | .div => if r == 0 then err "div0" else .ok (.int (l / r))
   | .mod => if r == 0 then .error .panic else .ok (.int (l % r))
   | .power =>
-      match exactPow l.toFloat r.toFloat with
+      match goPow l.toFloat r.toFloat with
       | some f => (match floatToInt? f with | some i => .ok (.int i) | none => .error .unsupported)
       | none => .error .unsupported
   | .less => vbool (l < r)
@@ -198,7 +221,7 @@ def floatOp (op : Op) (l r : Float) : Res :=
       match floatToInt? l, floatToInt? r with
       | some a, some b => if b == 0 then .error .panic else .ok (.float (a % b).toFloat)
       | _, _ => .error .unsupported
-  | .power => (match exactPow l r with | some f => .ok (.float f) | none => .error .unsupported)
+  | .power => (match goPow l r with | some f => .ok (.float f) | none => .error .unsupported)
   | .less => vbool (l < r)
   | .lessEqual => vbool (l ≤ r)
   | .greater => vbool (l > r)
